@@ -115,12 +115,13 @@ structure MCfg where
   verifyBeforeDelete : Bool   -- `verifyMigration` precedes `deleteV1Files`
   writeBeforeDelete  : Bool   -- `writeV2File` precedes `deleteV1Files`
   removeOnVerifyFail : Bool   -- `os.Remove(hydFilePath)` when verification fails
-  removeOnWriteFail  : Bool   -- `os.Remove(filePath)` when a write fails
+  removeOnWriteFail  : Bool   -- `os.Remove(filePath)` when writing an entry or closing fails
+  removeOnOpenFail   : Bool   -- nothing is left behind when creating the file (header, name) fails
   emptyKeyIsError    : Bool   -- `extractKeyFromTreasure` rejects an empty key
   verifyValues       : Bool   -- verification compares values too (currently: key presence only)
   deriving DecidableEq, Repr, Inhabited
 
-def good : MCfg := ⟨true, true, true, true, true, true, false⟩
+def good : MCfg := ⟨true, true, true, true, true, true, true, false⟩
 
 def dedupe (cfg : MCfg) (segs : List Seg) : List Entry :=
   segs.foldl (fun es s => if cfg.dedupeLast then insertKV es s.key s.data else insertIfAbsent es s.key s.data) []
@@ -156,7 +157,7 @@ structure Opts where
 inductive Fault where
   | none
   | load                 -- reading / decompressing / parsing a V1 file fails
-  | write                -- writing the .hyd file fails (a partial file may exist)
+  | write (stage : Nat)  -- writing the .hyd file fails: stage 0 = while creating it (header, swamp name), else later
   | verify               -- re-reading the .hyd file fails or a key is missing
   | unlink (n : Nat)     -- deleting the (n+1)-th V1 file fails
   deriving DecidableEq, Repr, Inhabited
@@ -166,6 +167,10 @@ structure Disk (File : Type) where
   v1Folder : Bool            -- the swamp folder itself still exists
   hyd      : Option File
   deriving Repr
+
+def Fault.isWrite : Fault → Bool
+  | .write _ => true
+  | _ => false
 
 inductive Res where
   | success
@@ -198,7 +203,10 @@ def migrate {File : Type} (cfg : MCfg) (v : V2 File) (o : Opts) (ft : Fault) (nm
       let written (x : Disk File) : Disk File := { x with hyd := some (v.write nm es) }
       -- a failed write leaves nothing (`os.Remove`) or a partial file
       let wfail (x : Disk File) : Disk File :=
-        if cfg.removeOnWriteFail then { x with hyd := none } else { x with hyd := some (v.write nm []) }
+        let removes := match ft with
+          | .write 0 => cfg.removeOnOpenFail
+          | _ => cfg.removeOnWriteFail
+        if removes then { x with hyd := none } else { x with hyd := some (v.write nm []) }
       let vfails (x : Disk File) : Bool :=
         o.verify && (ft = .verify || match x.hyd with
                                      | some f => !verifyOk cfg v f es
@@ -207,15 +215,15 @@ def migrate {File : Type} (cfg : MCfg) (v : V2 File) (o : Opts) (ft : Fault) (nm
       -- the three effects in the order the code performs them
       match cfg.writeBeforeDelete, cfg.verifyBeforeDelete with
       | true, true =>
-        if ft = .write then (.failed "write", wfail d)
+        if ft.isWrite then (.failed "write", wfail d)
         else if vfails (written d) then (.failed "verify", unwrite (written d))
         else (.success, del (written d))
       | true, false =>
-        if ft = .write then (.failed "write", wfail d)
+        if ft.isWrite then (.failed "write", wfail d)
         else if vfails (del (written d)) then (.failed "verify", unwrite (del (written d)))
         else (.success, del (written d))
       | false, _ =>
-        if ft = .write then (.failed "write", wfail (del d))
+        if ft.isWrite then (.failed "write", wfail (del d))
         else if vfails (written (del d)) then (.failed "verify", unwrite (written (del d)))
         else (.success, written (del d))
 
@@ -226,7 +234,7 @@ def migrateGood {File : Type} (v : V2 File) (o : Opts) (ft : Fault) (nm : String
   if ft = .load || segs.any (fun s => s.key == "") then (.failed "load", d)
   else if es.isEmpty then (.skippedEmpty, if o.deleteOld && !o.dryRun then deleteV1 ft d else d)
   else if o.dryRun then (.success, d)
-  else if ft = .write then (.failed "write", { d with hyd := none })
+  else if ft.isWrite then (.failed "write", { d with hyd := none })
   else if o.verify && (ft = .verify || !verifyOk good v (v.write nm es) es) then (.failed "verify", { d with hyd := none })
   else (.success, if o.deleteOld then deleteV1 ft { d with hyd := some (v.write nm es) } else { d with hyd := some (v.write nm es) })
 
